@@ -214,6 +214,11 @@ def _fun_src(shape: Shape, f: str, prog: Dict[str, Any], names: Dict[str, str],
         lines.append("    return [%r, 0, 99, [], []]" % f)
         return lines
     lines.append("    rv = [%s]" % ", ".join("L.enc(%r, %s)" % (v, pyname(shape, v)) for v in shape.reads[f]))
+    if f in shape.real.get("as_class", []) and shape.real.get("class_split"):
+        # two methods: the statements (calls, keeps, loads) sit in a second method reached through self
+        lines.append("    return self._rest(b, rv)")
+        lines.append("")
+        lines.append("def _rest(self, b, rv):")
     lines.append("    sv = []")
     sts = shape.stmts[f]
     i = 0
